@@ -46,7 +46,7 @@ ASSUMPTIONS = ['bit flips inside complete JSON files are not injected (nothing i
 PROBES = ['restart_with_groups', 'restart_with_links', 'restart_with_joins', 'restart_by_reference', 'restart_relative_paths',
           'double_round_trip', 'second_generation_restart', 'fault_torn_write', 'fault_enospc', 'fault_open', 'fault_close',
           'fault_truncated_read', 'fault_missing_read', 'fault_empty_read', 'save_failed_loudly', 'metadata_unserialisable_filtered',
-          'datetime_component', 'categorical_component']
+          'datetime_component', 'categorical_component', 'multi_key_join']
 
 LEAFKINDS = ['ineq', 'range', 'mrange', 'roi', 'roix', 'mask', 'slice', 'elem', 'catroi', 'cat', 'cat2d', 'catmr', 'flood', 'roi3d',
              'roind', 'empty']
@@ -371,9 +371,16 @@ def _execute(case, res, tmp, fs):
                     continue
                 if any(isinstance(l, LH.JoinLink) for l in dc.external_links):
                     continue
-                m1 = [c for c in d1.main_components if d1.get_kind(c) != 'datetime']
-                m2 = [c for c in d2.main_components if d2.get_kind(c) != 'datetime']
-                d1.join_on_key(d2, m1[op[2] % len(m1)], m2[op[4] % len(m2)])
+                m1 = [c for c in d1.main_components if d1.get_kind(c) == 'numerical']
+                m2 = [c for c in d2.main_components if d2.get_kind(c) == 'numerical']
+                if (op[2] + op[4]) % 3 == 0 and len(m1) >= 2 and len(m2) >= 2:
+                    # multi-column join; the order of the key tuples matters (first with first, second with second)
+                    k1 = (m1[op[2] % len(m1)], m1[(op[2] + 1) % len(m1)])
+                    k2 = (m2[op[4] % len(m2)], m2[(op[4] + 1) % len(m2)])
+                    d1.join_on_key(d2, k1, k2)
+                    res.probe('multi_key_join')
+                else:
+                    d1.join_on_key(d2, m1[op[2] % len(m1)], m2[op[4] % len(m2)])
             elif k == 'new_group':
                 dc.new_subset_group(subset_state=w.build_state(op[1]))
             elif k == 'set_state':
